@@ -737,5 +737,32 @@ theorem map_self_noForeign (s m : Nat) (seen : List Nat) (h : ∀ x ∈ seen, x 
       · exact ih'.1 o ho
     · simp [isSelf, hx, ih'.2]
 
+/-! ### polls, dynamic methods -/
+
+theorem runFlat_polls (F : Flat) : ∀ (h : List FStep) (ms : MS),
+    runFlat F h ms = runFlat F (h.filter (fun x => !x.isPoll)) ms := by
+  intro h
+  induction h with
+  | nil => intro ms; rfl
+  | cons x r ih =>
+    intro ms
+    cases x with
+    | trig m ev veto => simp [runFlat, FStep.isPoll, ih]
+    | poll m ev => simp [runFlat, FStep.isPoll, ih]
+
+theorem mem_customMethods (feats : List Mixin) (base : List Nat) (x : Nat) :
+    x ∈ customMethods feats base ↔ (x ∈ base ∨ x = 0 ∨ x = 1) := by
+  unfold customMethods
+  rw [List.mem_eraseDups]
+  simp only [List.mem_append, List.mem_flatten, List.mem_map]
+  constructor
+  · rintro ((⟨l, ⟨f, _, rfl⟩, hx⟩ | hx) | hx)
+    · cases f <;> simp [Mixin.methods] at hx <;> omega
+    · exact .inl hx
+    · simp at hx; exact .inr hx
+  · rintro (hx | hx)
+    · exact .inl (.inr hx)
+    · exact .inr (by simpa using hx)
+
 end Feat
 end TM
